@@ -126,6 +126,7 @@ def gen_settings(rng, max_pto=2, allow_n3lo=False, cheap=False):
             ("marble", 0.5),
             ({"Z": 1.0, "A": 1.0}, 1),
             ({"Z": 3.0, "A": 7.0}, 1),
+            ({"Z": 1, "A": 2}, 0.7),  # integer spelling
         ],
     )
     # --- grid
